@@ -1668,7 +1668,13 @@ class Alias(ObjectAliasMixin):
         self._target = value
         self.target_path = value.path
         if self.parent is not None:
-            self._target.aliases[self.path] = self
+            try:
+                self._target.aliases[self.path] = self
+            except (AliasResolutionError, CyclicAliasError):
+                # The new target is an alias whose own chain cannot be resolved:
+                # this alias stays unresolved (its target path is kept for later).
+                self._target = None
+                raise
 
     @property
     def final_target(self) -> Object:
